@@ -218,8 +218,8 @@ const (
 	vnArr = 2
 )
 
-// VerifW: whole run of json.Parser over every byte string of length 0..N:
-// termination, sticky end, nesting, State(), separators between units, slices inside the input.
+// VerifW: whole run of json.Parser over every byte string of length 0..N, up to
+// the first error: nesting, State(), separators between units, slices inside the input.
 func VerifW() {
 	n := vRange("n", 0, vParam("N", 3))
 	b := vBytes("b", n)
@@ -230,7 +230,6 @@ func VerifW() {
 	var stack []int
 	prevEnd := 0
 	prevKind := 0 // 0 none, 1 start, 2 key, 3 value or end
-	policy := vRange("policy", 0, 1)
 	ended := false
 	for i := 0; i < 2*n+4; i++ {
 		gt, data := p.Next()
@@ -246,17 +245,6 @@ func VerifW() {
 				vAssert(isPE, "error-type")
 			}
 			ended = true
-			// sticky: every further call reports the same again
-			if policy == 1 {
-				e1 := p.Err()
-				gt2, d2 := p.Next()
-				vAssert(gt2 == ErrorGrammar && len(d2) == 0, "not-sticky")
-				if e1 == io.EOF {
-					vAssert(p.Err() == io.EOF, "eof-not-sticky")
-				} else {
-					vAssert(p.Err() != nil && p.Err() != io.EOF, "error-not-sticky")
-				}
-			}
 			break
 		}
 		// every unit is a non-empty slice of the input, after the previous one
@@ -325,6 +313,44 @@ func VerifW() {
 			vAssert(st == ObjectKeyState || st == ObjectValueState, "state-object")
 		}
 		prevEnd = off + len(data)
+	}
+	vAssert(ended, "no-termination")
+}
+
+// VerifW01: caller keeps calling Next after errors: the end report is reached within
+// a linear number of calls, repeats, and nothing outside the input is handed out.
+func VerifW01() {
+	n := vRange("n", 0, vParam("N", 3))
+	b := vBytes("b", n)
+	z := parse.NewInputBytes(append(make([]byte, 0, n+1), b...))
+	whole := z.Bytes()
+	p := NewParser(z)
+	ended := false
+	prevErr, prevErrOff := false, -1
+	for i := 0; i < 3*n+6; i++ {
+		gt, data := p.Next()
+		vObserve("tok", int(gt), data)
+		vAssert(z.Offset() <= n, "offset-past-end")
+		_ = p.State()
+		if gt == ErrorGrammar {
+			vAssert(p.Err() != nil, "error-without-err")
+			final := p.Err() == io.EOF || (prevErr && prevErrOff == z.Offset())
+			if final {
+				ended = true
+				eof := p.Err() == io.EOF
+				gt2, d2 := p.Next()
+				vAssert(gt2 == ErrorGrammar && len(d2) == 0, "end-not-sticky")
+				vAssert((p.Err() == io.EOF) == eof, "end-err-not-sticky")
+				vReach("end")
+				break
+			}
+			prevErr, prevErrOff = true, z.Offset()
+			vReach("error")
+			continue
+		}
+		prevErr = false
+		off := vOffsetIn(data, whole)
+		vAssert(len(data) > 0 && off >= 0 && off+len(data) <= n, "unit-outside-input")
 	}
 	vAssert(ended, "no-termination")
 }
